@@ -1,7 +1,47 @@
 import KM.Driver.Core
-/-! Driver for C09 (stub until the property's model is built). -/
+import KM.Model.Seal
+/-! Driver for C09. Stateful ops:
+`reset <ed 0|1>` · `inj notls|nochain|noform|pass:<hex passphrase>` · `req`
+each ↦ `<status> <signer?> <ed?> <#published> <#caCerts> <#readySignals>` -/
 namespace KM.Driver.C09
+open KM.Util KM.Seal
 
-def handler (_mode : String) : Option Handler := none
+structure St where
+  cfg : Cfg
+  s : State
+
+def digest (status : Nat) (s : State) : String :=
+  s!"{status} {boolStr s.signer.isSome} {boolStr s.edSigner.isSome} {s.published.length} {s.caKeys.length} {s.readySignals}"
+
+def parseInj (t : String) : Option Inj :=
+  if t == "notls" then some .noTLS
+  else if t == "nochain" then some .noVerifiedChain
+  else if t == "noform" then some .noPassphraseField
+  else if t.startsWith "pass:" then
+    match unhex (t.drop 5).toString with
+    | some p => some (.pass (if p == "password" then 1 else 2))
+    | none => none
+  else none
+
+def stepLine (st : St) : List String → St × String
+  | ["reset", ed] =>
+    match parseBool ed with
+    | some e =>
+      let cfg : Cfg := { correct := 1, signerKey := 10, edKey := if e then some 11 else none }
+      ({ cfg := cfg, s := init }, digest 0 init)
+    | none => (st, "bad-op")
+  | ["inj", t] =>
+    match parseInj t with
+    | some i =>
+      let (s', status) := inject st.cfg st.s i
+      ({ st with s := s' }, digest status s')
+    | none => (st, "bad-op")
+  | ["req"] => (st, s!"{readyz st.s} {match guardedStatus st.s with | some n => toString n | none => "pass"}")
+  | _ => (st, "bad-op")
+
+def handler (mode : String) : Option Handler :=
+  if mode == "model" then
+    some { σ := St, init := { cfg := { correct := 1, signerKey := 10, edKey := none }, s := init }, step := stepLine }
+  else none
 
 end KM.Driver.C09
